@@ -296,6 +296,16 @@ func (w *world) quiesce(from int, d time.Duration) {
 	}
 }
 
+// openedSince: a transition or teardown has written its opening event since mark n
+func (w *world) openedSince(n int) bool {
+	for _, it := range w.since(n) {
+		if it.Kind == "E" && evKind(it.Name) == 1 {
+			return true
+		}
+	}
+	return false
+}
+
 func (w *world) issue(env *environment.Environment, r reqIn, user string) reply {
 	id := env.Id()
 	switch r.Kind {
@@ -309,13 +319,30 @@ func (w *world) issue(env *environment.Environment, r reqIn, user string) reply 
 		ev := &odcevent.OdcPartitionStateChangeEvent{EnvironmentId: id, State: "ERROR"}
 		ev.ServiceName = "ODC"
 		from := w.mark()
+		running := w.listed(id) && env.Sm.Current() == "RUNNING"
 		w.sim.Envman.NotifyIntegratedServiceEvent(ev)
+		if running {
+			// the handler runs in its own goroutine: in RUNNING it stops the run, wait for that to start
+			waitFor(2*time.Second, func() bool { return w.openedSince(from) })
+		}
 		w.quiesce(from, 12*time.Millisecond)
 		return reply{}
 	case "stoprun":
 		from := w.mark()
+		// END_OF_STREAM stops the run only when every task is known to be RUNNING (IsSafeToStop:
+		// the task state written when the START reply was processed); a device reports the end of
+		// its stream after that, so the event is sent once that is the case.  The message is
+		// handled asynchronously by the scheduler's event loop: when a stop must follow, wait for it.
+		running := w.listed(id) && env.Sm.Current() == "RUNNING"
+		if running {
+			waitFor(time.Second, env.IsSafeToStop)
+		}
+		sent := false
 		if tid := w.taskIdOf(env); tid != "" {
-			w.sim.DeviceEvent(tid, "END_OF_STREAM", nil)
+			sent = w.sim.DeviceEvent(tid, "END_OF_STREAM", nil)
+		}
+		if running && sent && env.IsSafeToStop() {
+			waitFor(2*time.Second, func() bool { return w.openedSince(from) })
 		}
 		w.quiesce(from, 12*time.Millisecond)
 		return reply{}
